@@ -68,6 +68,7 @@ class Translator:
         self.known = known_funcs            # name -> spec (already translated / to be translated)
         self.src = source_text
         self.used_constants = {}
+        self.notes = []
 
     # -------------------------------------------------------------- expressions
     def expr(self, e, d, env):
@@ -111,6 +112,11 @@ class Translator:
             return f"(if {self.cond(e.test, d, env)} then {self.expr(e.body, d, env)} else {self.expr(e.orelse, d, env)})"
         if isinstance(e, ast.Call):
             return self.call(e, d, env)
+        if isinstance(e, ast.Subscript) and ast.unparse(e.slice) in ("(slice(None, None, -1), ...)", "slice(None, None, -1)",
+                                                                     "::-1", "(::-1, ...)", "::-1, ...") \
+                and isinstance(e.value, ast.Name):
+            self.notes.append(f"axis reversal {ast.unparse(e)}: pointwise identity (order handled as list reversal)")
+            return self.expr(e.value, d, env)
         raise Refusal(f"expression {type(e).__name__}: {ast.unparse(e)}")
 
     def power(self, e, d, env):
@@ -169,8 +175,14 @@ class Translator:
                 return f"(Complex.arg ⟨{x}, {y}⟩)" if R else f"(Float.atan2 {y} {x})"
             if n in ("real",) and len(args) == 1:
                 return self.expr(args[0], d, env)
+            if n == "imag" and len(args) == 1:
+                self.expr(args[0], d, env)           # must be translatable
+                return "(0 : ℝ)" if R else "(0 : Float)"   # real-valued model
             raise Refusal(f"numpy function np.{n}/{len(args)}")
         if isinstance(f, ast.Attribute) and f.attr in ("ravel", "flatten") and not args:
+            return self.expr(f.value, d, env)          # shape glue: pointwise identity
+        if isinstance(f, ast.Attribute) and f.attr == "reshape" \
+                and not (isinstance(f.value, ast.Name) and f.value.id == "np"):
             return self.expr(f.value, d, env)          # shape glue: pointwise identity
         if isinstance(f, ast.Name):
             if f.id in env and env[f.id] == "fun":
@@ -215,6 +227,28 @@ class Translator:
             return self.cond(e.args[0], d, env)       # pointwise
         raise Refusal(f"condition {ast.unparse(e)}")
 
+    def static(self, e):
+        """True/False when the test is decided by the real-valued model alone, else None"""
+        if isinstance(e, ast.Call) and isinstance(e.func, ast.Attribute) and isinstance(e.func.value, ast.Name) \
+                and e.func.value.id == "np":
+            if e.func.attr == "isreal" and len(e.args) == 1:
+                return True
+            if e.func.attr in ("all", "any") and len(e.args) == 1:
+                return self.static(e.args[0])
+        if isinstance(e, ast.BoolOp):
+            vals = [self.static(v) for v in e.values]
+            if isinstance(e.op, ast.And):
+                if any(v is False for v in vals):
+                    return False
+                return True if all(v is True for v in vals) else None
+            if any(v is True for v in vals):
+                return True
+            return False if all(v is False for v in vals) else None
+        if isinstance(e, ast.UnaryOp) and isinstance(e.op, ast.Not):
+            v = self.static(e.operand)
+            return None if v is None else (not v)
+        return None
+
     def const(self, name, d):
         if not hasattr(self.C, name):
             raise Refusal(f"constants.{name} does not exist")
@@ -253,6 +287,23 @@ class Translator:
         glue = set(spec.get("glue", ()))
         ret = None
         rettuple = 0
+
+        def flatten(stmts):
+            out = []
+            for st in stmts:
+                if isinstance(st, ast.If):
+                    sv = self.static(st.test)
+                    if sv is True:
+                        notes.append(f"branch taken (real-valued model): {ast.unparse(st.test)}")
+                        out += flatten(st.body)
+                        continue
+                    if sv is False:
+                        notes.append(f"branch not taken (real-valued model): {ast.unparse(st.test)}")
+                        out += flatten(st.orelse)
+                        continue
+                out.append(st)
+            return out
+        body = flatten(body)
         for st in body:
             text = ast.unparse(st)
             first = text.splitlines()[0]
@@ -331,7 +382,7 @@ class Translator:
                 out.append(f"/-- the inputs the Python function rejects (raises) -/\ndef {name}_rejects {' '.join(gsig)} : Prop :=\n  " + " ∨ ".join(guards) + "\n")
             else:
                 out.append(f"def {name}_rejects {' '.join(gsig)} : Bool :=\n  " + " || ".join(guards) + "\n")
-        return "\n".join(out), notes
+        return "\n".join(out), notes + self.notes
 
 
 LEAN_KEYWORDS = {"at", "from", "in", "fun", "end", "then", "else", "if", "do", "let", "have", "show", "with", "open", "λ", "Type", "by"}
